@@ -56,3 +56,40 @@ Theorem C07_make_partial_valid :
   forall rs, Forall sane_range rs -> Forall valid_range (make_partial rs).
 Proof. exact make_partial_valid. Qed.
 Print Assumptions C07_make_partial_valid.
+
+(* ---- translator tie: the model used above equals the definitions that
+   harness/py2v.py generates from the current poorwsgi/response.py
+   (gen/RangeGen.v, rewritten on every check run), over the Python semantics
+   of lib/Py.v.  [block_expected] renders the model's window as the state and
+   header-operation log the code leaves behind. *)
+From Coq Require Import String.
+Require Import PW.lib.Py PW.gen.RangeGen PW.proofs.RangeGenEq.
+Open Scope string_scope.
+Open Scope list_scope.
+Open Scope Z_scope.
+
+Theorem C07_generated_range_block_is_model :
+  forall L r rs h s0 e0,
+    0 <= L -> valid_range r ->
+    gen_range_block (PInt L) (PList (inj_range r :: rs)) (PList h) s0 e0 (PInt 200)
+    = block_expected h L r.
+Proof. exact gen_range_block_eq. Qed.
+Print Assumptions C07_generated_range_block_is_model.
+
+Theorem C07_generated_make_partial_is_model :
+  forall h old u0 rs units,
+    gen_make_partial (PInt 200) (PList h) (PList old) u0
+                     (PList (map inj_range rs)) (PStr units)
+    = Ok (PTuple [PStr units;
+                  PList (h ++ [PTuple [PStr (s2l "add_header");
+                                       PStr (s2l "Accept-Ranges"); PStr units]]);
+                  PList (map inj_range (make_partial rs))]).
+Proof. exact gen_make_partial_eq. Qed.
+Print Assumptions C07_generated_make_partial_is_model.
+
+Theorem C07_generated_range_generator_is_model :
+  forall chunks s e,
+    gen_range_generator (PList (map PBytes chunks)) (PInt s) (inj_oz e)
+    = Ok (PList (map PBytes (range_gen chunks 0 s e))).
+Proof. exact gen_range_generator_eq. Qed.
+Print Assumptions C07_generated_range_generator_is_model.
